@@ -26,7 +26,15 @@ def gen(rng, tier):
         p, kv, kn = S.dirs(d)[i]
         r = rng.random()
         interior = sorted(set(kv[p + 1:kn]))
-        if r < .12:
+        other = []
+        if nd == 2:      # values taken from the OTHER direction's knots (a u/v mix-up must show)
+            po, kvo, kno = S.dirs(d)[1 - i]
+            other = [x for x in set(kvo) if kv[p] < x < kv[kn]]
+        if other and r < .3:
+            ends = [x for x in (kvo[po], kvo[kno]) if x in other]
+            u = rng.choice(ends) if ends and rng.random() < .6 else rng.choice(sorted(other))
+            G.count('split_param', 'other-direction-knot')
+        elif r < .12:
             u = rng.choice([kv[p], kv[kn]]); G.count('split_param', 'domain-end')
         elif r < .5 and interior:
             u = rng.choice(interior); G.count('split_param', 'on-knot')
@@ -34,6 +42,17 @@ def gen(rng, tier):
             u = kv[p] + (kv[kn] - kv[p]) * F(rng.randint(1, 99), 100); G.count('split_param', 'in-span')
         line = "split %s %s %d %s" % (KO.KIND[d['kind']], S.args(d), i, fr(u))
         out.append(Case('split', line, dict(shape=d, dir=i, u=u)))
+    # mix-up probes: the domains of u and v differ and the split parameter of one direction is the
+    # domain end of the other (a guard that looks at the wrong direction must show)
+    for _ in range(8 if tier == 'quick' else 60):
+        d = S.rand_surface(rng, maxp=3, max_interior=2, allow_range=False)
+        i = rng.randrange(2)
+        lo, hi = rng.choice([(F(0), F(3)), (F(-1), F(2)), (F(-2), F(5, 2))])
+        key = 'kvu' if i == 0 else 'kvv'
+        d[key] = [lo + (hi - lo) * x for x in d[key]]
+        for u in (F(1), F(0) if lo < 0 else F(1), hi):
+            line = "split %s %s %d %s" % (KO.KIND[d['kind']], S.args(d), i, fr(u))
+            out.append(Case('split', line, dict(shape=d, dir=i, u=u), tags=('mixup-probe',)))
     for _ in range(30 if tier == 'quick' else 400):
         d = _shape(rng)
         dirs = 'u' if d['kind'] == 'curve' else rng.choice(['u', 'v', 'uv'])
